@@ -479,6 +479,11 @@ def check_table_text(rec, text, tables, where, key):
     for (head, body), (headers, cols, mask) in zip(got, tables):
         if head != [[h.strip() for h in headers]]:
             rec.fail(f'{where}: headers read back as {head}', key + '-headers')
+        if len({len(c) for c in cols} | {len(m) for m in mask}) > 1:
+            rec.fail(f'{where}: columns and highlights of a table do not have the same number of elements '
+                     f'({[len(c) for c in cols]} / {[len(m) for m in mask]}): rows are dropped or misread',
+                     key + '-ragged')
+            continue
         want = expected_rows(cols, mask)
         if body != want:
             rec.fail(f'{where}: cells read back differ from the formatted inputs: '
